@@ -342,7 +342,7 @@ func (l *tcpLink) transport() frugal.FTransport { return l.tr }
 // method) has come back, everything sent before it has passed the proxy
 func (l *tcpLink) settle(std *frugal.FStandardClient) {
 	fctx := frugal.NewFContext("c03fence")
-	fctx.SetTimeout(5 * time.Second)
+	fctx.SetTimeout(2 * time.Second)
 	std.Call(fctx, "c03Fence", emptyStruct{}, emptyStruct{})
 }
 func (l *tcpLink) close() {
@@ -672,7 +672,7 @@ func oneCall(reg *labdriver.Registry, rec *recorder, lk link, std *frugal.FStand
 		return
 	}
 	fctx := frugal.NewFContext("c03")
-	fctx.SetTimeout(3 * time.Second)
+	fctx.SetTimeout(2 * time.Second)
 	for k, v := range c.Headers {
 		kb, _ := hex.DecodeString(k)
 		vb, _ := hex.DecodeString(v)
